@@ -1235,3 +1235,136 @@ def f_metrics(tier="quick", seed=0):
                           "extents": {"K": 2, "M": 4, "N": 2}, "sizes": {}, "arch": secs["architecture"], "bindings": b, "format": f,
                           "tags": {"family": "metrics", "template": "mini-part", "legal": True, "leader_first": True}})
     return specs
+
+
+# ---------------------------------------------------------------- F-rand
+RAND_TEMPLATES = [
+    ({"A": ["K", "M"], "B": ["K", "N"], "Z": ["M", "N"]}, ["Z[m, n] = A[k, m] * B[k, n]"]),
+    ({"A": ["K", "M"], "B": ["K"], "Z": ["M"]}, ["Z[m] = A[k, m] * B[k]"]),
+    ({"A": ["M", "N"], "B": ["M", "N"], "Z": ["M", "N"]}, ["Z[m, n] = A[m, n] * B[m, n]"]),
+    ({"A": ["K", "M"], "B": ["K", "N"], "C": ["M", "N"], "Z": ["M", "N"]}, ["Z[m, n] = A[k, m] * B[k, n] * C[m, n]"]),
+    ({"A": ["J", "K", "M"], "B": ["J", "K", "N"], "Z": ["M", "N"]}, ["Z[m, n] = A[j, k, m] * B[j, k, n]"]),
+    ({"A": ["K", "M"], "B": ["K", "M"], "Z": ["M"]}, ["Z[m] = A[k, m] + B[k, m]"]),
+    ({"A": ["K", "M"], "B": ["K", "N"], "T": ["M", "N"], "C": ["M", "N"], "Z": ["M", "N"]},
+     ["T[m, n] = A[k, m] * B[k, n]", "Z[m, n] = T[m, n] * C[m, n]"]),
+    ({"A": ["K", "M"], "B": ["K", "N"], "T": ["M", "N"], "Z": ["M"]}, ["T[m, n] = A[k, m] * B[k, n]", "Z[m] = T[m, n]"]),
+]
+
+
+def _prod(xs):
+    p = 1
+    for x in xs:
+        p *= x
+    return p
+
+
+def f_rand(tier="quick", seed=0, n=None):
+    """seeded random combinations of mapping features (several ranks partitioned in different styles, flattening, rank orders,
+    loop orders that keep each rank's levels outermost-to-innermost).  Members the compiler refuses are counted as rejected."""
+    rnd = random.Random(9000 + seed)
+    n = n or (160 if tier == "quick" else 3000)
+    specs = []
+    for idx in range(n):
+        decl, exprs = rnd.choice(RAND_TEMPLATES)
+        mapping = {}
+        sizes, sym = {}, {}
+        ext = {}
+        part_all, lo_all = {}, {}
+        for e in exprs:
+            out = out_name(e)
+            ranks = ranks_of(e)
+            inputs = [a for a in decl if a != out and a in e.split("=", 1)[1]]
+            is_sum = "+" in e
+            part = {}
+            groups = []
+            flat_done = False
+            for r in ranks:
+                hs = [t for t in inputs if r in decl[t]]
+                ext.setdefault(r, rnd.choice([2, 3]) if len(ranks_of(exprs[0])) < 4 else 2)
+                style = rnd.random()
+                if style < 0.45 or not hs:
+                    groups.append([r])
+                    continue
+                nlev = rnd.choice([1, 1, 2])
+                dirs = []
+                dyn = False
+                for lv in range(nlev):
+                    kind = rnd.random()
+                    nm = "%s%s%d" % (out if len(exprs) > 1 else "", r, nlev - 1 - lv)
+                    if kind < 0.35 and not dyn:
+                        dirs.append("uniform_shape(%d)" % rnd.choice([1, 2, 3]))
+                    elif kind < 0.45 and not dyn:
+                        dirs.append("nway_shape(%d)" % rnd.choice([1, 2, 3]))
+                    elif kind < 0.55 and not dyn:
+                        dirs.append("uniform_shape(%s)" % nm)
+                        if rnd.random() < 0.5:
+                            sym[nm] = ext[r] + 1
+                        else:
+                            sizes[nm] = rnd.choice([1, 2, 3])
+                    elif not is_sum:
+                        T = rnd.choice(hs)
+                        if rnd.random() < 0.3:
+                            dirs.append("uniform_occupancy(%s.%s)" % (T, nm))
+                            if rnd.random() < 0.5:
+                                sym[nm] = ext[r] + 1
+                            else:
+                                sizes[nm] = rnd.choice([1, 2])
+                        else:
+                            dirs.append("uniform_occupancy(%s.%d)" % (T, rnd.choice([1, 2, 3])))
+                        dyn = True
+                    else:
+                        dirs.append("uniform_shape(%d)" % rnd.choice([1, 2]))
+                part[r] = dirs
+                groups.append(levels_of(r, len(dirs)))
+            # optional flattening of two unpartitioned ranks that one input tensor holds
+            if not is_sum and rnd.random() < 0.25:
+                plain = [g[0] for g in groups if len(g) == 1]
+                cands = [(a, b) for t in inputs for a in decl[t] for b in decl[t] if a != b and a in plain and b in plain]
+                if cands:
+                    a, b = rnd.choice(cands)
+                    fl = a + b
+                    part["(%s, %s)" % (a, b)] = ["flatten()"]
+                    groups = [g for g in groups if g not in ([a], [b])]
+                    if rnd.random() < 0.5:
+                        T = rnd.choice([t for t in inputs if a in decl[t] and b in decl[t]])
+                        part[fl] = ["uniform_occupancy(%s.%d)" % (T, rnd.choice([1, 2, 3]))]
+                        groups.append([fl + "1", fl + "0"])
+                    else:
+                        groups.append([fl])
+            lo = ordered_perms(groups, 1, random.Random(rnd.random())) if False else None
+            # one random interleaving
+            gs = [list(g) for g in groups]
+            order = []
+            while any(gs):
+                g = rnd.choice([g for g in gs if g])
+                order.append(g.pop(0))
+            if part:
+                part_all[out] = part
+            if part or rnd.random() < 0.7:
+                lo_all[out] = order
+        if part_all:
+            mapping["partitioning"] = part_all
+        if lo_all:
+            mapping["loop-order"] = lo_all
+        if rnd.random() < 0.4:
+            ro = {}
+            for t, r in decl.items():
+                if len(r) > 1 and rnd.random() < 0.5:
+                    p = list(r)
+                    rnd.shuffle(p)
+                    if p != list(r):
+                        ro[t] = p
+            if ro:
+                mapping["rank-order"] = ro
+        sp = {"name": "rand/%d/%d" % (seed, idx), "decl": decl, "exprs": exprs, "mapping": mapping, "extents": ext, "sizes": sizes,
+              "tags": {"family": "rand"}, "timeout_ms": 15000, "budget_s": 45}
+        # keep the queries small: symbolic sizes only with few presence variables, at most two symbolic names
+        nvars = sum(_prod([ext[r] for r in decl[t]]) for t in decl if t not in [out_name(e) for e in exprs])
+        if sym and (nvars > 26 or len(sym) > 2):
+            for k, hi in sym.items():
+                sizes[k] = 1 + (hi % 3)
+            sym = {}
+        if sym:
+            sp["sym_sizes"] = sym
+        specs.append(sp)
+    return specs
